@@ -42,7 +42,7 @@ func ABIColType(t string) string {
 
 type G struct {
 	refStops bool // depGraph may give a referenced integration an early stop
-	R *rand.Rand
+	R        *rand.Rand
 }
 
 func NewG(seed uint64) *G { return &G{R: rand.New(rand.NewPCG(seed, seed*0x9e3779b97f4a7c15+1))} }
@@ -324,6 +324,12 @@ func (g *G) basePlan(prop string, seed uint64) *Plan {
 		PollMs: g.pickInt([]int{100, 250, 500, 1000}), InitLen: g.between(12, 50)}
 	if sp.NURLs > 1 && g.chance(60) {
 		sp.LagMax = g.between(1, 3)
+	}
+	// heads pushed over a websocket subscription instead of being polled
+	sp.WS = g.chance(20)
+	if g.chance(25) {
+		// position rows pruned in the background
+		p.Prune = &PrunePlan{Keep: g.pickInt([]int{1, 2, 3, 5, 8, 200}), EveryMs: g.pickInt([]int{500, 2000, 10000})}
 	}
 	p.Sources = []SourcePlan{sp}
 	p.Content = ContentPlan{TxMax: 3, LogMax: 3, TraceMax: 2, EmptyPct: 20}
